@@ -2,7 +2,7 @@
 From Coq Require Import ZArith List Bool Lia Permutation.
 Import ListNotations.
 From GV Require Import Common.Wire C17.Model.
-From GV Require Export C17.Lemmas1 C17.Lemmas2 C17.Lemmas3 C17.Lemmas4 C17.Lemmas5.
+From GV Require Export C17.Lemmas1 C17.Lemmas2 C17.Lemmas3 C17.Lemmas4 C17.Lemmas5 C17.Lemmas6 C17.Lemmas7 C17.Lemmas8 C17.Lemmas9.
 Open Scope Z_scope.
 
 (* ---------- the invariant of the property, spelled out ---------- *)
@@ -100,3 +100,94 @@ Lemma find_precedence : forall s (p : cid -> bool),
                 (exists x, In x cl /\ p x = true) -> (2 <= length (filter p cl))%nat
   end.
 Proof. intros. apply find_in_precedence. Qed.
+
+(* ---------- announcements ---------- *)
+(* For every call other than update_id / collection membership (stated below), in a state satisfying the invariant:
+   without hub nothing is logged; with a hub the Add / Remove messages are exactly (once each) the ids that entered /
+   left the component table, there is one ComponentsChanged per Add / Remove, and the remaining messages are the
+   documented ones for that call ([expected_others]); MExtDer (a reaction of the collection) is filtered out. *)
+Lemma announce_exact : forall o s, data_inv s -> guard_op s o = true -> special o = false ->
+  let s' := fst (step o s) in
+  (hub s = NoHub -> log s' = []) /\
+  (hub s <> NoHub ->
+     let out := filter nonext (log s') in
+     NoDup (adds out) /\ NoDup (removes out) /\
+     (forall x, In x (adds out) <-> In x (K s') /\ ~ In x (K s)) /\
+     (forall x, In x (removes out) <-> In x (K s) /\ ~ In x (K s')) /\
+     nchanged out = (length (adds out) + length (removes out))%nat /\
+     others out = expected_others o s (snd (step o s))).
+Proof.
+  intros o s I G Sp. cbv zeta. destruct (step_ann o s I G Sp) as [out [[e na nr a r c] O]].
+  destruct (step_log_of_effect (set_log s []) _ out eq_refl (inv_queue _ I) e) as [L1 L2]. simpl in L1, L2.
+  split; [exact L2|]. intros Hh. rewrite (L1 Hh).
+  split; [exact na|]. split; [exact nr|]. split; [exact a|]. split; [exact r|]. split; [exact c | exact O].
+Qed.
+
+Lemma all_classes_empty : forall out, adds out = [] -> removes out = [] -> nchanged out = O -> others out = [] -> out = [].
+Proof.
+  intros [|m out] Ha Hr Hc Ho; [reflexivity|]. exfalso.
+  destruct m; simpl in *; try discriminate.
+Qed.
+
+(* no change of the table and no documented value-type message => nothing is announced *)
+Lemma silent_when_unchanged : forall o s, data_inv s -> guard_op s o = true -> special o = false -> hub s <> NoHub ->
+  (forall x, In x (K (fst (step o s))) <-> In x (K s)) -> expected_others o s (snd (step o s)) = [] ->
+  filter nonext (log (fst (step o s))) = [].
+Proof.
+  intros o s I G Sp Hh HK HE. destruct (announce_exact o s I G Sp) as [_ H]. destruct (H Hh) as (_ & _ & Ha & Hr & Hc & Ho).
+  set (out := filter nonext (log (fst (step o s)))) in *.
+  assert (Ea : adds out = []).
+  { destruct (adds out) as [|x t] eqn:E; [reflexivity|]. exfalso. destruct (proj1 (Ha x) (or_introl eq_refl)) as [H1 H2]. apply H2. apply HK. exact H1. }
+  assert (Er : removes out = []).
+  { destruct (removes out) as [|x t] eqn:E; [reflexivity|]. exfalso. destruct (proj1 (Hr x) (or_introl eq_refl)) as [H1 H2]. apply H2. apply HK. exact H1. }
+  apply all_classes_empty; try assumption. rewrite Hc, Ea, Er. reflexivity. rewrite Ho. exact HE.
+Qed.
+
+Lemma log_sync_nonext : forall s, filter nonext (log (sync s)) = filter nonext (log s).
+Proof.
+  intros s. pose proof (emitted_sync s) as E. unfold emitted in E. rewrite queue_sync in E. apply app_inv_tail in E. exact E.
+Qed.
+
+(* update_id announces ComponentReplacedMessage(old, new) exactly when it replaced something *)
+Lemma announce_update_id : forall o n s, data_inv s ->
+  let s' := fst (step (OUpdateId o n) s) in
+  (hub s = NoHub -> log s' = []) /\
+  (hub s <> NoHub -> filter nonext (log s') =
+     if negb (o =? n) && negb (used o s && used n s) && used o s then [MReplaced o n] else []).
+Proof.
+  intros o n s I. cbv zeta. unfold step.
+  pose proof (update_id_eff o n (set_log s [])) as E.
+  destruct (step_log_of_effect (set_log s []) _ _ eq_refl (inv_queue _ I) E) as [L1 L2]. simpl in L1, L2.
+  split; [exact L2 | exact L1].
+Qed.
+
+(* joining / leaving the collection is announced by the collection, once, when membership changes *)
+Lemma announce_membership : forall s,
+  filter nonext (log (fst (step OJoin s))) = (match hub s with InColl => [] | _ => [MCollAdd] end) /\
+  filter nonext (log (fst (step OLeave s))) = (match hub s with InColl => [MCollDel] | _ => [] end).
+Proof.
+  intros s. unfold step, join, leave. simpl. destruct (hub s); simpl; rewrite ?log_sync_nonext; simpl; split; reflexivity.
+Qed.
+
+Lemma invariant_reachable : forall m c pool dl ops,
+  guarded ops (init m c pool dl) = true -> data_inv (run ops (init m c pool dl)).
+Proof. intros. apply run_inv; [apply init_inv | assumption]. Qed.
+
+(* ---------- stable order (the primitive mutations; the compound calls are sequences of these) ---------- *)
+Lemma order_stable_basic : forall s, NoDup (keys (comps s)) ->
+  (* remove_component (with its cascade) deletes entries and keeps the others in place, untouched *)
+  (forall c, exists f, comps (remove_component c s) = filter f (comps s)) /\
+  (* storing a component appends a new id at the end, or keeps the ids as they are *)
+  (forall c k, keys (comps (add_core c k s)) = if has_key c (comps s) then keys (comps s) else keys (comps s) ++ [c]) /\
+  (* update_id substitutes the id in place *)
+  (forall o n, used o s = true -> used n s = false -> o <> n ->
+     keys (comps (fst (update_id o n s))) = replz o n (keys (comps s))).
+Proof.
+  intros s ND. split; [|split].
+  - intros c. destruct (remove_component_spec c s ND) as [out S]. apply (rm_sub _ _ _ _ S).
+  - intros c k. destruct (add_core_spec c k s) as [PS _]. rewrite (ps_comps _ _ _ _ PS). apply keys_put.
+  - intros o n Ho Hn Hne. unfold update_id. apply Z.eqb_neq in Hne. rewrite Hne, Ho, Hn. simpl.
+    assert (Fu : used o (if memz n (parents s) then s else set_parents s (n :: parents s)) = true)
+      by (destruct (memz n (parents s)); exact Ho).
+    rewrite Fu. simpl. rewrite comps_emit. simpl. rewrite keys_ren. destruct (memz n (parents s)); reflexivity.
+Qed.
